@@ -3,13 +3,14 @@
 package main
 
 import (
-	"path/filepath"
 	"bytes"
 	"context"
 	"crypto/tls"
+	"crypto/x509"
 	"encoding/json"
 	"fmt"
 	"os"
+	"path/filepath"
 	"strings"
 	"time"
 
@@ -214,8 +215,148 @@ func c18Run(c *ev.Ctx, k c18Case) {
 	}
 }
 
+// c18OverlapCase: two signers of one process use the same endpoint at overlapping times. Signer A's call is in flight (the
+// server holds it) while signer B - the signer under test - makes its call; the gate is event-driven, no timing is involved.
+type c18OverlapCase struct {
+	Overlap    bool
+	Server     string // identity of the one server: ca1 | ca2
+	BundleA    string // what the signer with the call in flight trusts: ca1 | ca2 | both
+	BundleB    string // what the signer under test trusts
+	ClientAuth string
+}
+
+func c18Overlap(c *ev.Ctx, k c18OverlapCase) {
+	c.Eval()
+	k.Overlap = true
+	content := map[string]string{"ca1": c17PKI.CA1File, "ca2": c17PKI.CA2File, "both": c17PKI.BothFile}
+	trusts := func(bundle string) bool { return bundle == "both" || bundle == k.Server }
+	s := c17Farm.servers[0]
+	for _, o := range c17Farm.servers {
+		o.reset()
+	}
+	ca := map[string]tls.ClientAuthType{"require": tls.RequireAndVerifyClientCert, "request": tls.RequestClientCert}[k.ClientAuth]
+	s.mu.Lock()
+	s.tls = c17PKI.serverTLS(k.Server, s.ip, tls.VersionTLS12, tls.VersionTLS13, ca, false)
+	s.ans = answer{Kind: "hold", Key: c17CertLines[0]}
+	s.arrived, s.gate = make(chan struct{}), make(chan struct{})
+	arrived, gate := s.arrived, s.gate
+	s.mu.Unlock()
+	released := false
+	release := func() {
+		if !released {
+			released = true
+			close(gate)
+		}
+	}
+	defer func() {
+		release()
+		s.mu.Lock()
+		s.arrived, s.gate = nil, nil
+		s.mu.Unlock()
+	}()
+	mk := func(bundle string) (*crypki.Signer, error) {
+		return crypki.NewSigner(crypki.SignerConfig{TLSClientKeyFile: c17PKI.ClientKeyFile, TLSClientCertFile: c17PKI.ClientCertFile, TLSCACertFiles: []string{content[bundle]},
+			CrypkiEndpoints: []string{"127.0.0.1"}, CrypkiPort: uint(c17Farm.port), Retries: 1, PerTryTimeout: 120 * time.Second})
+	}
+	sa, ea := mk(k.BundleA)
+	sb, eb := mk(k.BundleB)
+	if ea != nil || eb != nil {
+		c.Violation("C18:newsigner-refuses-valid-config", fmt.Sprint(ea, eb), k)
+		return
+	}
+	req := func(who string) *proto.SSHCertificateSigningRequest {
+		return &proto.SSHCertificateSigningRequest{KeyMeta: &proto.KeyMeta{Identifier: "slot"}, Principals: []string{who}, PublicKey: c17CertLines[0], Validity: 60}
+	}
+	type res struct {
+		certs []ssh.PublicKey
+		err   error
+		p     string
+	}
+	aDone := make(chan res, 1)
+	go func() {
+		var r res
+		cx, cancel := context.WithTimeout(context.Background(), 150*time.Second)
+		defer cancel()
+		r.p = ev.Guard(func() { r.certs, _, r.err = sa.Sign(cx, req("signer-A")) })
+		aDone <- r
+	}()
+	inFlight := false
+	if trusts(k.BundleA) {
+		select {
+		case <-arrived:
+			inFlight = true
+		case r := <-aDone:
+			c.Violation("C18:genuine-endpoint-fails:overlap-first-call", fmt.Sprintf("the first signer's call ended before reaching the handler: %v %s", r.err, r.p), k)
+			return
+		case <-time.After(100 * time.Second):
+			c.Cap("overlap scenario: the first signer's request did not arrive within 100 s")
+			return
+		}
+	} else {
+		<-aDone // A is refused by its own configuration; nothing is in flight (control case)
+	}
+	var rb res
+	cx, cancel := context.WithTimeout(context.Background(), 90*time.Second)
+	bDone := make(chan struct{})
+	go func() {
+		rb.p = ev.Guard(func() { rb.certs, _, rb.err = sb.Sign(cx, req("signer-B")) })
+		close(bDone)
+	}()
+	select {
+	case <-bDone:
+	case <-time.After(100 * time.Second):
+		cancel()
+		c.Violation("C18:overlap:second-signer-never-returns", "the second signer's call did not return within 100 s while the first signer's call was in flight", k)
+		return
+	}
+	cancel()
+	if rb.p != "" {
+		c.Violation("C18:crash:"+ev.PanicSite(rb.p), rb.p, k)
+		return
+	}
+	s.mu.Lock()
+	var bServed bool
+	var bPeers []*x509.Certificate
+	for i, r := range s.Requests {
+		if len(r.Principals) == 1 && r.Principals[0] == "signer-B" {
+			bServed = true
+			if i < len(s.PeerCerts) {
+				bPeers = s.PeerCerts[i]
+			}
+		}
+	}
+	s.mu.Unlock()
+	c.Outcome(fmt.Sprintf("overlap/in-flight=%v/B-trusts=%v/B-served=%v/err=%v", inFlight, trusts(k.BundleB), bServed, rb.err != nil))
+	c.Nontrivial(ev.JSON(k))
+	if !trusts(k.BundleB) {
+		if bServed {
+			c.Violation("C18:impostor-served:while-another-signer-call-in-flight", fmt.Sprintf("the signer trusts only %s, the server presents a certificate of %s, yet its request reached the RPC handler while another signer's call to the same endpoint was in flight", k.BundleB, k.Server), k)
+		}
+		if rb.err == nil {
+			c.Violation("C18:success-against-impostors-only", "Sign succeeded against a server its configuration does not trust (another signer's call was in flight)", k)
+		}
+	} else {
+		if rb.err != nil || !bServed {
+			c.Violation("C18:genuine-endpoint-fails:overlap:"+k.Server+":"+k.BundleB, fmt.Sprintf("the endpoint is genuine for the second signer but its call failed while another call was in flight: %v", rb.err), k)
+		} else if len(bPeers) == 0 || !bytes.Equal(bPeers[0].Raw, c17PKI.clientLeaf.Raw) {
+			c.Violation("C18:client-certificate-not-presented:"+k.ClientAuth, "the second signer's request arrived without the configured client certificate", k)
+		}
+	}
+	release()
+	if inFlight {
+		select {
+		case r := <-aDone:
+			if r.err != nil {
+				c.Violation("C18:genuine-endpoint-fails:overlap-first-call", fmt.Sprintf("the call that was in flight failed after the other signer's call: %v", r.err), k)
+			}
+		case <-time.After(100 * time.Second):
+			c.Violation("C18:overlap:first-signer-never-returns", "the held call did not return within 100 s of being released", k)
+		}
+	}
+}
+
 func checkC18(c *ev.Ctx) {
-	c.Rule("real crypki.NewSigner / Sign over real TLS against harness gRPC servers on 127.0.0.1..3:port whose TLS personality is swapped per configuration: CA bundle {one file, two files, one file with two certificates; plus 4 other legal layouts of the two-CA bundle: no newline after the last END line, an unrelated CA in front, CRLF with text between blocks, reversed order; and a single path whose content is rewritten between signers (6 earlier-content histories x 3 current contents)} x server identity {configured CA 1, CA 2, foreign CA, self-signed, expired, not yet valid, other name} x protocol range {1.0-1.1, 1.2, 1.3, 1.0-1.3} x client-certificate policy {require+verify, request, ignore, request while naming only a foreign client CA, verify-if-given against a foreign client CA} (420 single-endpoint configurations), plus endpoint lists of length 2..3 with every placement of one genuine server among impostors of 3 kinds incl. a configured-CA certificate that names the first endpoint (thorough: 7 kinds, two genuine servers); servers record handshakes, negotiated version, peer certificates and whether the RPC handler ran. non-trivial = every configuration; distinct by configuration")
+	c.Rule("real crypki.NewSigner / Sign over real TLS against harness gRPC servers on 127.0.0.1..3:port whose TLS personality is swapped per configuration: CA bundle {one file, two files, one file with two certificates; plus 4 other legal layouts of the two-CA bundle: no newline after the last END line, an unrelated CA in front, CRLF with text between blocks, reversed order; and a single path whose content is rewritten between signers (6 earlier-content histories x 3 current contents)} x server identity {configured CA 1, CA 2, foreign CA, self-signed, expired, not yet valid, other name} x protocol range {1.0-1.1, 1.2, 1.3, 1.0-1.3} x client-certificate policy {require+verify, request, ignore, request while naming only a foreign client CA, verify-if-given against a foreign client CA} (420 single-endpoint configurations), plus endpoint lists of length 2..3 with every placement of one genuine server among impostors of 3 kinds incl. a configured-CA certificate that names the first endpoint (thorough: 7 kinds, two genuine servers); plus 36 overlap scenarios: two signers with bundles {CA 1, CA 2, both} each, the first signer's call held in the server's handler (event-driven gate) while the second signer calls the same endpoint; servers record handshakes, negotiated version, peer certificates and whether the RPC handler ran. non-trivial = every configuration; distinct by configuration")
 	c.Assume("TLS and gRPC libraries run with their own goroutines and real time; outcomes are deterministic functions of the configuration; handshake internals are trusted")
 	c17PKI = newPKI()
 	defer os.RemoveAll(c17PKI.dir)
@@ -226,12 +367,28 @@ func checkC18(c *ev.Ctx) {
 	c17Farm = newFarm(c17PKI, 3)
 	defer c17Farm.stop()
 	if c.ReplayCase != nil {
+		var ok c18OverlapCase
+		if json.Unmarshal(c.ReplayCase, &ok); ok.Overlap {
+			c18Overlap(c, ok)
+			return
+		}
 		var k c18Case
 		json.Unmarshal(c.ReplayCase, &k)
 		c18Run(c, k)
 		return
 	}
 	n := 0
+	// two differently configured signers whose calls to one endpoint overlap
+	for _, srv := range []string{"ca1", "ca2"} {
+		for _, ba := range []string{"ca1", "ca2", "both"} {
+			for _, bb := range []string{"ca1", "ca2", "both"} {
+				for _, ca := range []string{"require", "request"} {
+					c18Overlap(c, c18OverlapCase{Server: srv, BundleA: ba, BundleB: bb, ClientAuth: ca})
+					n++
+				}
+			}
+		}
+	}
 	for _, b := range []string{"one", "two", "both"} {
 		for _, id := range []string{"ca1", "ca2", "foreign", "selfsigned", "expired", "notyet", "othername"} {
 			for _, pr := range []string{"1.2", "1.0-1.1", "1.3", "1.0-1.3"} {
